@@ -112,6 +112,7 @@ fn parse_bracket(pc: &[PC], mut i: usize) -> Option<Result<(At, usize), ()>> {
         i += 1;
     }
     let mut atoms: Vec<(A, bool)> = vec![];
+    let mut quoted_hyphen_at: Vec<usize> = vec![];
     let mut first = true;
     loop {
         if i >= pc.len() {
@@ -149,7 +150,15 @@ fn parse_bracket(pc: &[PC], mut i: usize) -> Option<Result<(At, usize), ()>> {
             }
         }
         atoms.push((A::C(c), !lit && c == '-'));
+        // a *quoted* hyphen between two elements: dash, bash and yash still form a range while
+        // XCU 2.14 can be read either way (same decision as in C05's refglob) -> unspecified
+        if lit && c == '-' && atoms.len() >= 2 {
+            quoted_hyphen_at.push(atoms.len() - 1);
+        }
         i += 1;
+    }
+    if quoted_hyphen_at.iter().any(|k| k + 1 < atoms.len()) {
+        unspec = true;
     }
     let mut items = vec![];
     let mut k = 0;
@@ -476,9 +485,25 @@ pub fn run(tier: Tier) -> i32 {
             check_pattern(&ctx, &pc, p, &short_strings, &counters, false);
         }
     });
+    // (i'') one complete bracket expression `[` body `]` with every body of length <= 4 (thorough
+    // 5) over the characters that are special inside brackets, alone and followed by `*`
+    {
+        let balpha: Vec<char> = "ab-[]!^.:=\\é".chars().collect();
+        let bodies = all_strings(&balpha, tier.pick(4, 5));
+        let bstrings = all_strings(&"ab-[]^!.:é\\".chars().collect::<Vec<_>>(), 2);
+        bodies.par_iter().for_each(|b| {
+            for p in [format!("[{b}]"), format!("[{b}]*")] {
+                let Some(pc) = pchars(&p) else {
+                    counters.unspec.fetch_add(1, Relaxed);
+                    continue;
+                };
+                check_pattern(&ctx, &pc, &p, &bstrings, &counters, false);
+            }
+        });
+    }
     // (ii) unit sequences: characters plus whole inner bracket elements
     let mut units: Vec<String> = palpha.iter().map(|c| c.to_string()).collect();
-    for c in "a.-]^[\\!:=*?&~".chars() {
+    for c in "a.-]^[\\!:=*?&~é".chars() {
         units.push(format!("[.{c}.]"));
         units.push(format!("[={c}=]"));
     }
@@ -492,7 +517,19 @@ pub fn run(tier: Tier) -> i32 {
         upats.extend(next.iter().filter(|p| p.contains("[.") || p.contains("[=") || p.contains("[:")).cloned());
         cur = next;
     }
-    let ustrings = all_strings(&"a.-]^[\\!:=*?&~b".chars().collect::<Vec<_>>(), tier.pick(1, 2));
+    // every inner element inside a complemented / plain bracket with a neighbour
+    {
+        let inner: Vec<String> = units.iter().filter(|u| u.starts_with("[.") || u.starts_with("[=") || u.starts_with("[:")).cloned().collect();
+        let forms = ["[!E]", "[!Ea]", "[!aE]", "[E]", "[Ea]", "[!E]*", "[^E]", "[!EE]", "[!E-]", "[a-bE]"];
+        for e in &inner {
+            for f in forms {
+                upats.push(f.replace('E', e));
+            }
+        }
+        upats.sort();
+        upats.dedup();
+    }
+    let ustrings = all_strings(&"a.-]^[\\!:=*?&~bé".chars().collect::<Vec<_>>(), tier.pick(1, 2));
     upats.par_iter().for_each(|p| {
         // written without escapes: every backslash is a normal character here
         let pc: Vec<PC> = p.chars().map(|c| (c, false)).collect();
@@ -523,7 +560,7 @@ pub fn run(tier: Tier) -> i32 {
     let cov = json!({
         "evaluations": counters.pairs.load(Relaxed) + shell_runs,
         "distinct_nontrivial": counters.nontrivial.load(Relaxed),
-        "rule": format!("(i) every character sequence of length <= {pmax} over {{a b . - * ? [ ] ! ^ \\ : =}} read with backslash escapes, and every Literal/Normal marking of sequences <= 3, x every string of length <= 3 (2 for the longest patterns) over {{a b . - ] [ ^ \\ : é}}, in all four anchorings; for patterns <= 3 also find/rfind with shortest/longest in the combinations # ## % %% use; (ii) every sequence of <= {umax} units (those characters plus [.c.] [=c=] for 14 characters, [:alpha:], [:punct:]) containing an inner bracket element; oracle = own parser of XCU 2.14 + naive backtracking; (iii) case and trim forms through the whole shell with each special character quoted in every style. Non-trivial = pattern with at least one non-literal atom; distinct by (pattern, literal mask)."),
+        "rule": format!("(i) every character sequence of length <= {pmax} over {{a b . - * ? [ ] ! ^ \\ : =}} read with backslash escapes, and every Literal/Normal marking of sequences <= 3, x every string of length <= 3 (2 for the longest patterns) over {{a b . - ] [ ^ \\ : é}}, in all four anchorings; for patterns <= 3 also find/rfind with shortest/longest in the combinations # ## % %% use; (i'') every complete bracket expression with a body of <= 4/5 characters over {{a b - [ ] ! ^ . : = \\ é}}, alone and followed by *; (ii) every sequence of <= {umax} units (those characters plus [.c.] [=c=] for 14 characters, [:alpha:], [:punct:]) containing an inner bracket element; oracle = own parser of XCU 2.14 + naive backtracking; (iii) case and trim forms through the whole shell with each special character quoted in every style. Non-trivial = pattern with at least one non-literal atom; distinct by (pattern, literal mask)."),
         "samples": samples.take(),
         "patterns_char_sequences": pats.len(),
         "patterns_unit_sequences": upats.len(),
